@@ -10,9 +10,6 @@ Oracle : own NumPy reference: table value at nodes; the generating tensor polyno
          interpolant for rough tables; fixed-dimension variant == general variant; OutOfBoundsError (with
          truthful attributes) iff extrapolate=False and some coordinate is outside [grid[0], grid[-1]].
 """
-import itertools
-import math
-
 import numpy as np
 
 from vfw import core
@@ -54,7 +51,7 @@ ASSUMPTIONS = [
     "semi-structured data), with extrapolate=True bounds left unjudged (no bounds clause is documented there "
     "beyond the per-dimension OutOfBoundsError of the bracket search)",
 ]
-BOUND = {'quick': '16 shards x 260 Hypothesis cases', 'thorough': '32 shards x 5000 Hypothesis cases'}
+BOUND = {'quick': '16 shards x 260 Hypothesis cases', 'thorough': '32 shards x 6000 Hypothesis cases'}
 MIN_CLASS_FRACTION = {'judged_inbounds': 0.5, 'sign:neg': 0.05, 'sign:end0': 0.05, 'sign:straddle': 0.05,
                       'dim3': 0.1, 'boundary_query': 0.2, 'oob_expected': 0.05, 'fixed_variant': 0.15,
                       'via:mmsc': 0.05}
@@ -906,7 +903,7 @@ def strategy(semi=False):
 
 def units(tier, seed):
     nshards = 16 if tier == 'quick' else 32
-    per = 260 if tier == 'quick' else 5000
+    per = 260 if tier == 'quick' else 6000
     us = []
     for i in range(nshards):
         # every eighth shard exercises the semi-structured interpolator on full tensor grids
